@@ -137,6 +137,17 @@ fn gen13_have(r: &mut Rng) -> String {
     let j = r.below(np as u64) as usize;
     let i = (j + 1 + r.below(np as u64 - 1) as usize) % np;
     let bits = |set: &[usize]| -> String { (0..np).map(|k| if set.contains(&k) { '1' } else { '0' }).collect() };
+    if r.chance(1, 3) {
+        // the announced piece is being fetched from another peer (not end game): nothing may be asked of the announcer
+        let ops = vec![
+            format!("a0;b0:{}", bits(&[j])),
+            format!("a1;b1:{}", bits(&[])),
+            "u0".to_string(),
+            "u1".to_string(),
+            format!("h1:{}", j),
+        ];
+        return format!("hist {} {} {}", np, r.next() % 1_000_000, ops.join(";"));
+    }
     let extra = 1 + r.below(3) as usize;
     let mut ops = vec![format!("a0;b0:{}", bits(&[j])), format!("a1;b1:{}", bits(&[j]))];
     for k in 0..extra {
@@ -153,7 +164,7 @@ pub fn gen13(r: &mut Rng, n: usize) -> Vec<String> {
     let mut out = vec![];
     // every pick counts: manager histories judged by C13 (the pick of the Have path included)
     out.extend(gen12(r, n / 40));
-    for _ in 0..(n / 400).max(3) {
+    for _ in 0..(n / 200).max(6) {
         out.push(gen13_have(r));
     }
     for _ in 0..n {
